@@ -5,7 +5,7 @@ Read from the C source of the working tree on every run:
   * enum values: TickitTermCtl, TickitTermMouseMode, the xterm driver's private controls, TickitPenAttr,
     TickitPenSizePosition, TickitPenUnderline, TickitRunFlags, TickitCtl;
   * the sgr_onoff table and mode_for_mouse's constants;
-  * the await_started budget of setupterm;
+  * the await_started budget of setupterm; the default output buffer size of tickit_build;
   * three structural facts of the code that decide which variant of the model mirrors the tree
     (`Cfg`): does setctl_int(KEYPAD_APP) record the mode in the shadow, does tickit_term_resume send the
     cached pen again, are values the program has set protected from DECRPM/DECRQSS replies that arrive later.
@@ -150,6 +150,13 @@ def run(ctx):
     out.append(f"def setup_await_msec : Int := {int(m.group(1)) if m else -1}")
     if not m:
         bad("setupterm await")
+
+    # ---- the output buffer a toplevel instance gives a terminal it builds itself
+    body = func_body(tk, "tickit_build") or ""
+    m = re.search(r"if\s*\(\s*!\s*term_builder\s*\.\s*output_buffersize\s*\)\s*term_builder\s*\.\s*output_buffersize\s*=\s*(\d+)\s*;", body)
+    out.append(f"def top_default_bufsize : Nat := {int(m.group(1)) if m else 0}")
+    if not m:
+        bad("tickit_build output_buffersize")
 
     # ---- structural facts selecting the model variant
     body = func_body(xt, "setctl_int") or ""
